@@ -35,7 +35,7 @@ package connlimit
 //@   ghost_ensures cl.held[token] == old(cl.held[token]) - amount
 
 //@ func (*ConnLimiter).ServeHTTP
-//@   props C04 C20
+//@   props C04 C14 C20
 //@   requires held_nonneg: forall t string :: cl.held[t] >= 0
 //@   modifies everything
 //@   ensures balanced: forall t string :: cl.held[t] == old(cl.held[t])
